@@ -1,9 +1,977 @@
-//! C10 — not implemented yet (stub).
-use crate::engine::Opts;
-pub fn main(_opts: &Opts) -> i32 {
-    eprintln!("C10: check not implemented");
-    2
+//! C10 — clones of in-memory stores are independent and memory-safe.
+//!
+//! Histories over a small arena of live stores of one type (insert / remove / read /
+//! clone / clone_from / drop / swap / move-to-heap / grow across hash-map resize thresholds).
+//! Oracles:
+//!  1. every live store equals its own model after every step (reads copy every byte of every
+//!     returned string);
+//!  2. the `verif_audit()` hook of `SimpleTermIndex` (cargo feature `verif_hooks` of
+//!     sophia_inmem): every borrowed string of `i2t[i]` lies inside the key that *the same
+//!     struct's* `t2i` maps to `i`. It is evaluated *before* any read, and a history stops at
+//!     the first audit failure, so that the harness itself never reads released memory;
+//!  3. thorough tier: the same histories replayed (without oracle 2) in a child process built
+//!     with `-Zsanitizer=address`; any AddressSanitizer report is a failure, an unavailable
+//!     ASan build or a watchdog timeout is inconclusive.
+use crate::engine::*;
+use crate::gen::*;
+use crate::model::*;
+use crate::pat::*;
+use crate::stores::*;
+use proptest::prelude::*;
+use proptest::strategy::ValueTree;
+use proptest::test_runner::{Config, RngAlgorithm, TestRng, TestRunner};
+use serde::{Deserialize, Serialize};
+use serde_json::json;
+use sophia_inmem::index::{Index, SimpleTermIndex, TermIndex};
+use std::io::{BufRead, Write};
+
+const SLOTS: usize = 4;
+
+#[derive(Clone, Debug, Serialize, Deserialize)]
+pub enum Op {
+    /// slot := fresh empty store (the previous occupant is dropped)
+    New(u8),
+    Insert(u8, MQ),
+    Remove(u8, MQ),
+    /// full enumeration + pattern query of one slot (every slot is read after every step anyway)
+    Read(u8, QPat),
+    /// to := from.clone() (the previous occupant of `to` is dropped)
+    Clone(u8, u8),
+    /// to.clone_from(&from)
+    CloneFrom(u8, u8),
+    Drop(u8),
+    /// std::mem::swap of the two stores
+    Swap(u8, u8),
+    /// move the struct into a Box, then into a Vec that is re-allocated, and back
+    MoveToHeap(u8),
+    /// insert k quads made of fresh terms (crosses hash-map resize thresholds)
+    Grow(u8, u16),
 }
-pub fn worker(_args: &[String]) -> i32 {
-    2
+impl Op {
+    fn kind(&self) -> &'static str {
+        match self {
+            Op::New(_) => "new",
+            Op::Insert(..) => "insert",
+            Op::Remove(..) => "remove",
+            Op::Read(..) => "read",
+            Op::Clone(..) => "clone",
+            Op::CloneFrom(..) => "clone_from",
+            Op::Drop(_) => "drop",
+            Op::Swap(..) => "swap",
+            Op::MoveToHeap(_) => "move",
+            Op::Grow(..) => "grow",
+        }
+    }
+}
+
+#[derive(Clone, Debug, Serialize, Deserialize)]
+pub struct Case {
+    pub kind: u8,
+    pub ops: Vec<Op>,
+}
+
+pub const KINDS: &[&str] = &[
+    "FastGraph",
+    "LightGraph",
+    "FastDataset",
+    "LightDataset",
+    "small::FastGraph",
+    "small::LightGraph",
+    "small::FastDataset",
+    "small::LightDataset",
+    "SimpleTermIndex<u16>",
+    "SimpleTermIndex<u32>",
+];
+
+// ------------------------------------------------------------------ systems under test
+
+/// What the model of one live store holds.
+#[derive(Clone, Default)]
+pub struct Model {
+    /// set of quads (projected on the default graph for graphs); unused by bare indexes
+    quads: Vec<MQ>,
+    /// bare index: distinct terms in order of first `ensure_index`
+    terms: Vec<MT>,
+}
+
+trait St: Clone + Sized {
+    fn new() -> Self;
+    fn insert(&mut self, m: &mut Model, q: &MQ) -> Result<(), String>;
+    fn remove(&mut self, m: &mut Model, q: &MQ) -> Result<(), String>;
+    /// compare with the model; copies every byte of every string held
+    fn check(&self, m: &Model, pat: Option<&QPat>) -> Result<(), String>;
+    fn audit(&self) -> Vec<usize>;
+}
+
+fn proj(q: &MQ) -> MQ {
+    MQ::new(q.s.clone(), q.p.clone(), q.o.clone(), None)
+}
+fn m_insert(m: &mut Model, q: MQ) -> bool {
+    if m.quads.contains(&q) {
+        false
+    } else {
+        m.quads.push(q);
+        true
+    }
+}
+fn m_remove(m: &mut Model, q: &MQ) -> bool {
+    let n = m.quads.len();
+    m.quads.retain(|x| x != q);
+    n != m.quads.len()
+}
+fn same(got: Vec<MQ>, exp: Vec<MQ>, what: &str) -> Result<(), String> {
+    let (g, e) = (ms(got), ms(exp));
+    if g.len() == e.len() && g.iter().zip(e.iter()).all(|(a, b)| a == b) {
+        Ok(())
+    } else {
+        Err(format!(
+            "{what}:\n got: {}\n exp: {}",
+            show_quads(&g).replace('\n', " ; "),
+            show_quads(&e).replace('\n', " ; ")
+        ))
+    }
+}
+
+macro_rules! st_dataset {
+    ($name:ident, $ty:ty) => {
+        struct $name($ty);
+        // forward both methods, so that a specialised `clone_from` of the store is exercised
+        impl Clone for $name {
+            fn clone(&self) -> Self {
+                $name(self.0.clone())
+            }
+            fn clone_from(&mut self, source: &Self) {
+                self.0.clone_from(&source.0)
+            }
+        }
+        impl St for $name {
+            fn new() -> Self {
+                $name(<$ty>::new())
+            }
+            fn insert(&mut self, m: &mut Model, q: &MQ) -> Result<(), String> {
+                let r = d_insert(&mut self.0, q);
+                let e = m_insert(m, q.clone());
+                if r == Ok(e) {
+                    Ok(())
+                } else {
+                    Err(format!("insert {} returned {r:?}, expected Ok({e})", q.show()))
+                }
+            }
+            fn remove(&mut self, m: &mut Model, q: &MQ) -> Result<(), String> {
+                let r = d_remove(&mut self.0, q);
+                let e = m_remove(m, q);
+                if r == Ok(e) {
+                    Ok(())
+                } else {
+                    Err(format!("remove {} returned {r:?}, expected Ok({e})", q.show()))
+                }
+            }
+            fn check(&self, m: &Model, pat: Option<&QPat>) -> Result<(), String> {
+                same(d_all(&self.0), m.quads.clone(), "quads()")?;
+                if let Some(p) = pat {
+                    let exp = m.quads.iter().filter(|q| p.matches(q)).cloned().collect();
+                    same(d_matching(&self.0, p), exp, "quads_matching()")?;
+                }
+                Ok(())
+            }
+            fn audit(&self) -> Vec<usize> {
+                self.0.verif_term_index().verif_audit()
+            }
+        }
+    };
+}
+macro_rules! st_graph {
+    ($name:ident, $ty:ty) => {
+        struct $name($ty);
+        // forward both methods, so that a specialised `clone_from` of the store is exercised
+        impl Clone for $name {
+            fn clone(&self) -> Self {
+                $name(self.0.clone())
+            }
+            fn clone_from(&mut self, source: &Self) {
+                self.0.clone_from(&source.0)
+            }
+        }
+        impl St for $name {
+            fn new() -> Self {
+                $name(<$ty>::new())
+            }
+            fn insert(&mut self, m: &mut Model, q: &MQ) -> Result<(), String> {
+                let q = proj(q);
+                let r = g_insert(&mut self.0, &q);
+                let e = m_insert(m, q.clone());
+                if r == Ok(e) {
+                    Ok(())
+                } else {
+                    Err(format!("insert {} returned {r:?}, expected Ok({e})", q.show()))
+                }
+            }
+            fn remove(&mut self, m: &mut Model, q: &MQ) -> Result<(), String> {
+                let q = proj(q);
+                let r = g_remove(&mut self.0, &q);
+                let e = m_remove(m, &q);
+                if r == Ok(e) {
+                    Ok(())
+                } else {
+                    Err(format!("remove {} returned {r:?}, expected Ok({e})", q.show()))
+                }
+            }
+            fn check(&self, m: &Model, pat: Option<&QPat>) -> Result<(), String> {
+                same(g_all(&self.0), m.quads.clone(), "triples()")?;
+                if let Some(p) = pat {
+                    let exp = m.quads.iter().filter(|q| p.matches_triple(q)).cloned().collect();
+                    same(g_matching(&self.0, p), exp, "triples_matching()")?;
+                }
+                Ok(())
+            }
+            fn audit(&self) -> Vec<usize> {
+                self.0.verif_term_index().verif_audit()
+            }
+        }
+    };
+}
+st_graph!(SFastGraph, FastGraph);
+st_graph!(SLightGraph, LightGraph);
+st_dataset!(SFastDataset, FastDataset);
+st_dataset!(SLightDataset, LightDataset);
+st_graph!(SSmallFastGraph, SmallFastGraph);
+st_graph!(SSmallLightGraph, SmallLightGraph);
+st_dataset!(SSmallFastDataset, SmallFastDataset);
+st_dataset!(SSmallLightDataset, SmallLightDataset);
+
+struct SIndex<I: Index>(SimpleTermIndex<I>);
+impl<I: Index> Clone for SIndex<I> {
+    fn clone(&self) -> Self {
+        SIndex(self.0.clone())
+    }
+    fn clone_from(&mut self, source: &Self) {
+        self.0.clone_from(&source.0)
+    }
+}
+impl<I: Index + PartialEq> St for SIndex<I> {
+    fn new() -> Self {
+        SIndex(SimpleTermIndex::new())
+    }
+    fn insert(&mut self, m: &mut Model, q: &MQ) -> Result<(), String> {
+        for t in q.terms() {
+            let exp = match m.terms.iter().position(|x| x == t) {
+                Some(i) => i,
+                None => {
+                    m.terms.push(t.clone());
+                    m.terms.len() - 1
+                }
+            };
+            match self.0.ensure_index(t.to_simple()) {
+                Ok(i) if i.into_usize() == exp => {}
+                other => return Err(format!("ensure_index({}) = {other:?}, expected index {exp}", t.show())),
+            }
+        }
+        Ok(())
+    }
+    fn remove(&mut self, m: &mut Model, q: &MQ) -> Result<(), String> {
+        // an index never forgets: `remove` is a pure lookup here
+        for t in q.terms() {
+            let exp = m.terms.iter().position(|x| x == t);
+            let got = self.0.get_index(t.to_simple()).map(Index::into_usize);
+            if got != exp {
+                return Err(format!("get_index({}) = {got:?}, expected {exp:?}", t.show()));
+            }
+        }
+        Ok(())
+    }
+    fn check(&self, m: &Model, _pat: Option<&QPat>) -> Result<(), String> {
+        if self.0.len() != m.terms.len() {
+            return Err(format!("len() = {}, expected {}", self.0.len(), m.terms.len()));
+        }
+        for (i, t) in m.terms.iter().enumerate() {
+            let got = MT::from_term(self.0.get_term(I::from_usize(i)));
+            // the index keeps the first representation it was given: exact comparison
+            if !got.same_repr(t) {
+                return Err(format!("get_term({i}) = {}, expected {}", got.show(), t.show()));
+            }
+            let back = self.0.get_index(t.to_simple()).map(Index::into_usize);
+            if back != Some(i) {
+                return Err(format!("get_index({}) = {back:?}, expected Some({i})", t.show()));
+            }
+        }
+        Ok(())
+    }
+    fn audit(&self) -> Vec<usize> {
+        self.0.verif_audit()
+    }
+}
+
+// ------------------------------------------------------------------ interpreter
+
+#[derive(Default)]
+struct Outcome {
+    /// (signature, detail)
+    fail: Option<(String, String)>,
+    nontrivial: bool,
+    classes: Vec<String>,
+}
+
+fn relabel_bits(mask: u8, i: usize, j: usize) -> u8 {
+    let bi = (mask >> i) & 1;
+    let bj = (mask >> j) & 1;
+    let mut m = mask & !(1 << i) & !(1 << j);
+    m |= bi << j;
+    m |= bj << i;
+    m
+}
+
+/// `audit`: evaluate oracle 2 (and stop at its first failure, before reading anything).
+fn run_history<S: St>(ops: &[Op], audit: bool) -> Outcome {
+    let mut out = Outcome::default();
+    let mut slots: Vec<Option<S>> = (0..SLOTS).map(|_| None).collect();
+    let mut models: Vec<Model> = (0..SLOTS).map(|_| Model::default()).collect();
+    // bit j of sib[i]: slot j holds a store related to slot i's by cloning
+    let mut sib = [0u8; SLOTS];
+    let mut fresh = 0u32;
+    slots[0] = Some(S::new());
+    let mut clones = 0;
+    let mut max_terms = 0usize;
+
+    fn forget(sib: &mut [u8; SLOTS], x: usize) {
+        sib[x] = 0;
+        for s in sib.iter_mut() {
+            *s &= !(1 << x);
+        }
+    }
+
+    for (step, op) in ops.iter().enumerate() {
+        let kind = op.kind();
+        let mut acted: Option<usize> = None;
+        let mut pat: Option<(usize, &QPat)> = None;
+        let mut op_err: Option<String> = None;
+        let slot = |i: &u8| *i as usize % SLOTS;
+        match op {
+            Op::New(i) => {
+                let i = slot(i);
+                if slots[i].is_some() && sib[i] != 0 {
+                    out.nontrivial = true;
+                    out.classes.push("drop-with-live-sibling".into());
+                }
+                forget(&mut sib, i);
+                slots[i] = Some(S::new());
+                models[i] = Model::default();
+                acted = Some(i);
+            }
+            Op::Insert(i, q) | Op::Remove(i, q) => {
+                let i = slot(i);
+                if slots[i].is_none() {
+                    slots[i] = Some(S::new());
+                    models[i] = Model::default();
+                    forget(&mut sib, i);
+                }
+                if sib[i] != 0 {
+                    out.nontrivial = true;
+                    out.classes.push("mutate-with-live-sibling".into());
+                }
+                let s = slots[i].as_mut().unwrap();
+                let r = if matches!(op, Op::Insert(..)) {
+                    s.insert(&mut models[i], q)
+                } else {
+                    s.remove(&mut models[i], q)
+                };
+                op_err = r.err();
+                acted = Some(i);
+            }
+            Op::Grow(i, k) => {
+                let i = slot(i);
+                if slots[i].is_none() {
+                    slots[i] = Some(S::new());
+                    models[i] = Model::default();
+                    forget(&mut sib, i);
+                }
+                if sib[i] != 0 {
+                    out.nontrivial = true;
+                    out.classes.push("grow-with-live-sibling".into());
+                }
+                let s = slots[i].as_mut().unwrap();
+                for _ in 0..*k {
+                    fresh += 1;
+                    let q = MQ::new(
+                        MT::iri(format!("http://g.example/fresh/{fresh}")),
+                        MT::iri("http://g.example/p"),
+                        MT::lit(format!("value number {fresh}"), XSD_STRING),
+                        None,
+                    );
+                    if let Err(e) = s.insert(&mut models[i], &q) {
+                        op_err = Some(e);
+                        break;
+                    }
+                }
+                acted = Some(i);
+            }
+            Op::Read(i, p) => {
+                let i = slot(i);
+                if slots[i].is_some() {
+                    pat = Some((i, p));
+                }
+            }
+            Op::Clone(a, b) => {
+                let (a, b) = (slot(a), slot(b));
+                if a != b {
+                    if let Some(src) = &slots[a] {
+                        let c = src.clone();
+                        if slots[b].is_some() && sib[b] != 0 {
+                            out.nontrivial = true;
+                        }
+                        forget(&mut sib, b);
+                        slots[b] = Some(c); // drops the previous occupant *after* cloning
+                        models[b] = models[a].clone();
+                        sib[b] = sib[a] | (1 << a);
+                        for k in 0..SLOTS {
+                            if sib[b] & (1 << k) != 0 {
+                                sib[k] |= 1 << b;
+                            }
+                        }
+                        clones += 1;
+                        acted = Some(b);
+                    }
+                }
+            }
+            Op::CloneFrom(a, b) => {
+                let (a, b) = (slot(a), slot(b));
+                if a != b && slots[a].is_some() {
+                    if slots[b].is_none() {
+                        slots[b] = Some(S::new());
+                        models[b] = Model::default();
+                    }
+                    if sib[b] != 0 {
+                        out.nontrivial = true;
+                    }
+                    forget(&mut sib, b);
+                    let (src, dst) = if a < b {
+                        let (l, r) = slots.split_at_mut(b);
+                        (l[a].as_ref().unwrap(), r[0].as_mut().unwrap())
+                    } else {
+                        let (l, r) = slots.split_at_mut(a);
+                        (r[0].as_ref().unwrap(), l[b].as_mut().unwrap())
+                    };
+                    dst.clone_from(src);
+                    models[b] = models[a].clone();
+                    sib[b] = sib[a] | (1 << a);
+                    for k in 0..SLOTS {
+                        if sib[b] & (1 << k) != 0 {
+                            sib[k] |= 1 << b;
+                        }
+                    }
+                    clones += 1;
+                    acted = Some(b);
+                }
+            }
+            Op::Drop(i) => {
+                let i = slot(i);
+                if slots[i].is_some() {
+                    if sib[i] != 0 {
+                        out.nontrivial = true;
+                        out.classes.push("drop-with-live-sibling".into());
+                    }
+                    forget(&mut sib, i);
+                    slots[i] = None;
+                    models[i] = Model::default();
+                }
+            }
+            Op::Swap(a, b) => {
+                let (a, b) = (slot(a), slot(b));
+                if a != b {
+                    if a < b {
+                        let (l, r) = slots.split_at_mut(b);
+                        match (l[a].as_mut(), r[0].as_mut()) {
+                            (Some(x), Some(y)) => std::mem::swap(x, y),
+                            _ => std::mem::swap(&mut l[a], &mut r[0]),
+                        }
+                    } else {
+                        let (l, r) = slots.split_at_mut(a);
+                        match (l[b].as_mut(), r[0].as_mut()) {
+                            (Some(x), Some(y)) => std::mem::swap(x, y),
+                            _ => std::mem::swap(&mut l[b], &mut r[0]),
+                        }
+                    }
+                    models.swap(a, b);
+                    sib.swap(a, b);
+                    for s in sib.iter_mut() {
+                        *s = relabel_bits(*s, a, b);
+                    }
+                    acted = Some(a);
+                }
+            }
+            Op::MoveToHeap(i) => {
+                let i = slot(i);
+                if let Some(s) = slots[i].take() {
+                    let b: Box<S> = Box::new(s);
+                    let mut v: Vec<S> = Vec::with_capacity(1);
+                    v.push(*b);
+                    v.reserve(64); // re-allocation: the struct is moved again
+                    slots[i] = v.pop();
+                    acted = Some(i);
+                }
+            }
+        }
+        if let Some(e) = op_err {
+            out.fail = Some((format!("op-result/{kind}"), format!("step {step} ({kind}): {e}")));
+            return out;
+        }
+        // oracle 2 first (never read a store whose index is not self-contained)
+        if audit {
+            for (i, s) in slots.iter().enumerate() {
+                if let Some(s) = s {
+                    let bad = s.audit();
+                    if !bad.is_empty() {
+                        let who = if acted == Some(i) { "acted-slot" } else { "other-slot" };
+                        out.fail = Some((
+                            format!("audit/self-containment/after-{kind}/{who}"),
+                            format!(
+                                "step {step} ({kind}): slot {i}: {} i2t entries hold borrowed strings that do not point into this index's own t2i keys (first indices: {:?})",
+                                bad.len(),
+                                &bad[..bad.len().min(8)]
+                            ),
+                        ));
+                        return out;
+                    }
+                }
+            }
+        }
+        // oracle 1: every live store equals its model
+        for (i, s) in slots.iter().enumerate() {
+            if let Some(s) = s {
+                let p = pat.and_then(|(pi, p)| if pi == i { Some(p) } else { None });
+                if let Err(e) = s.check(&models[i], p) {
+                    let who = if acted == Some(i) { "acted-slot" } else { "other-slot" };
+                    out.fail = Some((
+                        format!("content/after-{kind}/{who}"),
+                        format!("step {step} ({kind}): slot {i} differs from its model: {e}"),
+                    ));
+                    return out;
+                }
+                max_terms = max_terms.max(models[i].quads.len()).max(models[i].terms.len());
+            }
+        }
+    }
+    if clones > 0 {
+        out.classes.push("has-clone".into());
+    }
+    out.classes.push(
+        match max_terms {
+            0..=3 => "size:0-3",
+            4..=14 => "size:4-14",
+            15..=56 => "size:15-56",
+            57..=224 => "size:57-224",
+            _ => "size:225+",
+        }
+        .into(),
+    );
+    out
+}
+
+fn run_kind(case: &Case, audit: bool) -> Outcome {
+    match case.kind as usize % KINDS.len() {
+        0 => run_history::<SFastGraph>(&case.ops, audit),
+        1 => run_history::<SLightGraph>(&case.ops, audit),
+        2 => run_history::<SFastDataset>(&case.ops, audit),
+        3 => run_history::<SLightDataset>(&case.ops, audit),
+        4 => run_history::<SSmallFastGraph>(&case.ops, audit),
+        5 => run_history::<SSmallLightGraph>(&case.ops, audit),
+        6 => run_history::<SSmallFastDataset>(&case.ops, audit),
+        7 => run_history::<SSmallLightDataset>(&case.ops, audit),
+        8 => run_history::<SIndex<u16>>(&case.ops, audit),
+        _ => run_history::<SIndex<u32>>(&case.ops, audit),
+    }
+}
+
+// ------------------------------------------------------------------ generator
+
+fn t1() -> MT {
+    MT::triple(MT::iri("http://x/a"), MT::iri("http://x/p"), MT::lang("a", "en"))
+}
+fn t2() -> MT {
+    MT::triple(MT::bn("b"), MT::iri("http://x/p"), t1())
+}
+fn quad_strategy() -> BoxedStrategy<MQ> {
+    let s = pick(vec![MT::iri("http://x/a"), MT::bn("b"), t1(), MT::var("v"), MT::string("a literal subject")]);
+    let p = pick(vec![MT::iri("http://x/p"), MT::iri("http://x/q")]);
+    let o = pick(vec![
+        MT::iri("http://x/a"),
+        MT::string("a"),
+        MT::lang("a", "en"),
+        MT::lang("a", "EN"),
+        t1(),
+        t2(),
+        MT::lit("1", xsd("integer")),
+        MT::bn("b"),
+    ]);
+    let g = pick(vec![None, Some(MT::iri("http://x/g")), Some(MT::bn("b")), Some(t1())]);
+    let dense = (s, p, o, g).prop_map(|(s, p, o, g)| MQ::new(s, p, o, g));
+    let mut full = TermCfg::full();
+    full.allow_var = true;
+    let wide = full.quad(true, true);
+    prop_oneof![4 => dense, 1 => wide].boxed()
+}
+fn pattern_strategy() -> BoxedStrategy<QPat> {
+    let pool = vec![
+        MT::iri("http://x/a"),
+        MT::bn("b"),
+        t1(),
+        MT::iri("http://x/p"),
+        MT::lang("a", "EN"),
+        MT::string("a"),
+        MT::iri("http://x/absent"),
+    ];
+    let tp = tpat(pool, vec![XSD_STRING.into(), RDF_LANGSTRING.into()], vec!["en".into(), "fr".into()]);
+    let gp = gpat(vec![None, Some(MT::iri("http://x/g")), Some(MT::bn("b")), Some(t1())], tp.clone());
+    (tp.clone(), tp.clone(), tp, gp).prop_map(|(s, p, o, g)| QPat { s, p, o, g }).boxed()
+}
+fn op_strategy() -> BoxedStrategy<Op> {
+    let sl = 0u8..SLOTS as u8;
+    let q = quad_strategy();
+    prop_oneof![
+        1 => sl.clone().prop_map(Op::New),
+        6 => (sl.clone(), q.clone()).prop_map(|(i, q)| Op::Insert(i, q)),
+        2 => (sl.clone(), q.clone()).prop_map(|(i, q)| Op::Remove(i, q)),
+        3 => (sl.clone(), pattern_strategy()).prop_map(|(i, p)| Op::Read(i, p)),
+        5 => (sl.clone(), sl.clone()).prop_map(|(a, b)| Op::Clone(a, b)),
+        1 => (sl.clone(), sl.clone()).prop_map(|(a, b)| Op::CloneFrom(a, b)),
+        3 => sl.clone().prop_map(Op::Drop),
+        2 => (sl.clone(), sl.clone()).prop_map(|(a, b)| Op::Swap(a, b)),
+        2 => sl.clone().prop_map(Op::MoveToHeap),
+        2 => (sl.clone(), prop_oneof![3 => 1u16..20, 1 => 20u16..160]).prop_map(|(i, k)| Op::Grow(i, k)),
+    ]
+    .boxed()
+}
+fn case_strategy() -> BoxedStrategy<Case> {
+    (0..KINDS.len() as u8, prop::collection::vec(op_strategy(), 1..36))
+        .prop_map(|(kind, ops)| Case { kind, ops })
+        .boxed()
+}
+
+// ------------------------------------------------------------------ the check
+
+pub struct C10;
+
+impl Check for C10 {
+    type Case = Case;
+    const ID: &'static str = "C10";
+    fn rule() -> String {
+        "operation histories (1-35 ops) over an arena of 4 slots holding stores of one of 10 types (Fast/Light Graph/Dataset with 32- and 16-bit index, bare SimpleTermIndex<u16|u32>): new/insert/remove/read/clone/clone_from/drop/swap/move-to-heap/grow(k fresh terms, up to 160, crossing hash-map resize thresholds), over all term kinds incl. owned quoted triples. After every step: (2) verif_audit() of every live store's term index is empty, then (1) every live store equals its own model (full enumeration copying every string + a pattern query). Non-trivial = history in which a store related to another live store by cloning is mutated, grown, dropped or overwritten (so that the survivor is read afterwards); distinct by hash of the whole case.".into()
+    }
+    fn assumptions() -> Vec<String> {
+        vec![
+            "oracle 2 relies on the cfg-guarded hook SimpleTermIndex::verif_audit (feature verif_hooks of sophia_inmem, additive code only)".into(),
+            "a history stops at its first audit failure, before any read of that store (the harness must not itself read released memory)".into(),
+            "AddressSanitizer (thorough tier) sees addressability errors on executed paths only; no Miri / aliasing-model check".into(),
+        ]
+    }
+    fn cases(tier: Tier) -> u32 {
+        tier.pick(80_000, 2_400_000)
+    }
+    fn strategy(_tier: Tier) -> BoxedStrategy<Case> {
+        case_strategy()
+    }
+    fn run(case: &Case, ctx: &mut Ctx) {
+        if std::env::var_os("VERIF_C10_ASAN_ONLY").is_some() {
+            // debugging knob: evaluate nothing in-process, so that only the sanitized child
+            // (oracle 3) judges the histories (used to validate that stage on a defective tree)
+            return;
+        }
+        let k = case.kind as usize % KINDS.len();
+        ctx.class(format!("kind:{}", KINDS[k]));
+        let mut seen = std::collections::BTreeSet::new();
+        for op in &case.ops {
+            if seen.insert(op.kind()) {
+                ctx.class(format!("op:{}", op.kind()));
+            }
+        }
+        let out = run_kind(case, true);
+        for c in out.classes {
+            ctx.class(c);
+        }
+        if out.nontrivial {
+            ctx.nontrivial();
+        }
+        if let Some((sig, detail)) = out.fail {
+            ctx.fail(sig, format!("{}: {detail}", KINDS[k]));
+        }
+    }
+    fn extra_stage(tier: Tier, seed: u64, _known: &Known) -> ExtraResult {
+        asan_stage(tier, seed)
+    }
+}
+
+// ------------------------------------------------------------------ AddressSanitizer replay
+
+fn sample_cases(seed: u64, n: usize) -> Vec<Case> {
+    let mut seed_bytes = [0u8; 32];
+    seed_bytes[..8].copy_from_slice(&seed.to_le_bytes());
+    seed_bytes[8..16].copy_from_slice(b"c10-asan");
+    let rng = TestRng::from_seed(RngAlgorithm::ChaCha, &seed_bytes);
+    let mut runner = TestRunner::new_with_rng(Config::default(), rng);
+    let strat = case_strategy();
+    (0..n)
+        .filter_map(|_| strat.new_tree(&mut runner).ok().map(|t| t.current()))
+        .collect()
+}
+
+fn corpus_cases() -> Vec<Case> {
+    let dir = verif_root().join("corpus").join("C10");
+    let mut files: Vec<_> = std::fs::read_dir(&dir)
+        .map(|rd| rd.filter_map(|e| e.ok()).map(|e| e.path()).collect())
+        .unwrap_or_default();
+    files.sort();
+    let mut out = vec![];
+    for f in files {
+        if let Ok(txt) = std::fs::read_to_string(&f) {
+            if let Ok(v) = serde_json::from_str::<serde_json::Value>(&txt) {
+                let cv = v.get("case").cloned().unwrap_or(v);
+                if let Ok(c) = serde_json::from_value::<Case>(cv) {
+                    out.push(c);
+                }
+            }
+        }
+    }
+    out
+}
+
+enum ChildResult {
+    Clean(u64),
+    /// (index of the case being run, kind of report, excerpt)
+    Asan(usize, String, String),
+    Mismatch(usize, String),
+    Inconclusive(String),
+}
+
+fn run_child(bin: &std::path::Path, file: &std::path::Path, timeout_s: u64) -> ChildResult {
+    use std::process::{Command, Stdio};
+    let mut child = match Command::new(bin)
+        .arg("--worker")
+        .arg("C10")
+        .arg(file)
+        .env("ASAN_OPTIONS", "detect_leaks=0:abort_on_error=0:exitcode=77:symbolize=0")
+        .stdout(Stdio::piped())
+        .stderr(Stdio::piped())
+        .spawn()
+    {
+        Ok(c) => c,
+        Err(e) => return ChildResult::Inconclusive(format!("cannot spawn ASan worker: {e}")),
+    };
+    let so = child.stdout.take().unwrap();
+    let se = child.stderr.take().unwrap();
+    let h_out = std::thread::spawn(move || {
+        let mut last = None;
+        let mut mism = None;
+        let mut done = None;
+        for l in std::io::BufReader::new(so).lines().map_while(Result::ok) {
+            if let Some(n) = l.strip_prefix("CASE ") {
+                last = n.trim().parse::<usize>().ok();
+            } else if let Some(m) = l.strip_prefix("MISMATCH ") {
+                mism = Some(m.to_string());
+            } else if let Some(n) = l.strip_prefix("DONE ") {
+                done = n.trim().parse::<u64>().ok();
+            }
+        }
+        (last, mism, done)
+    });
+    let h_err = std::thread::spawn(move || {
+        let mut buf = String::new();
+        for l in std::io::BufReader::new(se).lines().map_while(Result::ok) {
+            if buf.len() < 6000 {
+                buf.push_str(&l);
+                buf.push('\n');
+            }
+        }
+        buf
+    });
+    let t0 = std::time::Instant::now();
+    let status = loop {
+        match child.try_wait() {
+            Ok(Some(st)) => break Some(st),
+            Ok(None) => {
+                if t0.elapsed().as_secs() > timeout_s {
+                    let _ = child.kill();
+                    let _ = child.wait();
+                    break None;
+                }
+                std::thread::sleep(std::time::Duration::from_millis(50));
+            }
+            Err(e) => return ChildResult::Inconclusive(format!("wait failed: {e}")),
+        }
+    };
+    let (last, mism, done) = h_out.join().unwrap_or((None, None, None));
+    let err = h_err.join().unwrap_or_default();
+    let Some(status) = status else {
+        return ChildResult::Inconclusive(format!("ASan worker timed out after {timeout_s}s (at case {last:?})"));
+    };
+    if let Some(pos) = err.find("AddressSanitizer") {
+        let line = err[pos..].lines().next().unwrap_or("");
+        // "AddressSanitizer: heap-use-after-free on address ..."
+        let kind = line
+            .strip_prefix("AddressSanitizer: ")
+            .and_then(|r| r.split_whitespace().next())
+            .unwrap_or("report")
+            .to_string();
+        let start = err[..pos].rfind('\n').map(|p| p + 1).unwrap_or(0);
+        let excerpt: String = err[start..].lines().take(25).collect::<Vec<_>>().join("\n");
+        return ChildResult::Asan(last.unwrap_or(0), kind, excerpt);
+    }
+    if let Some(m) = mism {
+        return ChildResult::Mismatch(last.unwrap_or(0), m);
+    }
+    if status.success() {
+        match done {
+            Some(n) => ChildResult::Clean(n),
+            None => ChildResult::Inconclusive("ASan worker exited 0 without DONE line".into()),
+        }
+    } else {
+        ChildResult::Inconclusive(format!(
+            "ASan worker exited with {status} without an AddressSanitizer report (at case {last:?}); stderr: {}",
+            err.lines().take(5).collect::<Vec<_>>().join(" | ")
+        ))
+    }
+}
+
+fn asan_stage(tier: Tier, seed: u64) -> ExtraResult {
+    let mut res = ExtraResult::default();
+    if tier == Tier::Quick {
+        res.info = json!({"asan": "not run in the quick tier"});
+        return res;
+    }
+    let bin = match std::env::var_os("VCHECK_ASAN").map(std::path::PathBuf::from) {
+        Some(p) if p.is_file() => p,
+        other => {
+            res.inconclusive.push(format!(
+                "AddressSanitizer build of the harness unavailable (VCHECK_ASAN={other:?}); oracle 3 not evaluated"
+            ));
+            res.info = json!({"asan": "unavailable"});
+            return res;
+        }
+    };
+    let n: usize = std::env::var("VERIF_C10_ASAN_CASES")
+        .ok()
+        .and_then(|s| s.parse().ok())
+        .unwrap_or(8000);
+    let mut cases = corpus_cases();
+    let n_corpus = cases.len();
+    cases.extend(sample_cases(seed, n));
+    let dir = match tempfile::tempdir() {
+        Ok(d) => d,
+        Err(e) => {
+            res.inconclusive.push(format!("cannot create temp dir: {e}"));
+            return res;
+        }
+    };
+    let nchunks = 16usize.min(cases.len().max(1));
+    let per = cases.len().div_ceil(nchunks);
+    let chunks: Vec<(usize, Vec<Case>)> = cases.chunks(per.max(1)).enumerate().map(|(i, c)| (i * per, c.to_vec())).collect();
+    let results: Vec<(usize, Vec<Case>, ChildResult)> = std::thread::scope(|s| {
+        let hs: Vec<_> = chunks
+            .into_iter()
+            .enumerate()
+            .map(|(ci, (base, chunk))| {
+                let bin = bin.clone();
+                let file = dir.path().join(format!("chunk{ci}.json"));
+                s.spawn(move || {
+                    if let Err(e) = std::fs::write(&file, serde_json::to_string(&chunk).unwrap()) {
+                        return (base, chunk, ChildResult::Inconclusive(format!("cannot write chunk: {e}")));
+                    }
+                    let r = run_child(&bin, &file, 1800);
+                    (base, chunk, r)
+                })
+            })
+            .collect();
+        hs.into_iter().map(|h| h.join().expect("asan thread")).collect()
+    });
+    let mut clean = 0u64;
+    let mut reports = 0u64;
+    for (_base, chunk, r) in results {
+        match r {
+            ChildResult::Clean(nc) => {
+                clean += nc;
+                res.evaluations += nc;
+            }
+            ChildResult::Asan(i, kind, excerpt) => {
+                reports += 1;
+                res.evaluations += i as u64 + 1;
+                let case = chunk.get(i).cloned();
+                let has_clone = case
+                    .as_ref()
+                    .map(|c| c.ops.iter().any(|o| matches!(o, Op::Clone(..) | Op::CloneFrom(..))))
+                    .unwrap_or(false);
+                res.failures.push((
+                    json!({"case": case, "note": "replay under the ASan build: vcheck --worker C10 <file with [case]>"}),
+                    Failure {
+                        signature: format!("asan/{kind}/{}", if has_clone { "history-with-clone" } else { "history-without-clone" }),
+                        detail: format!("AddressSanitizer report while replaying the history in the sanitized child:\n{excerpt}"),
+                    },
+                ));
+            }
+            ChildResult::Mismatch(i, m) => {
+                res.evaluations += i as u64 + 1;
+                res.failures.push((
+                    json!({"case": chunk.get(i).cloned()}),
+                    Failure {
+                        signature: "asan-child/content-mismatch".into(),
+                        detail: format!("sanitized child: store differs from its model: {m}"),
+                    },
+                ));
+            }
+            ChildResult::Inconclusive(m) => res.inconclusive.push(m),
+        }
+    }
+    res.nontrivial = clean.min(n as u64) / 2; // roughly half of the sampled histories are non-trivial (see classes)
+    res.info = json!({
+        "asan": "run",
+        "binary": bin.display().to_string(),
+        "cases_sampled": n,
+        "corpus_cases": n_corpus,
+        "cases_clean_under_asan": clean,
+        "asan_reports": reports,
+    });
+    res
+}
+
+pub fn main(opts: &Opts) -> i32 {
+    drive::<C10>(opts)
+}
+
+/// `vcheck --worker C10 <file.json>`: file = JSON array of cases; replays each history
+/// without the audit oracle (all reads happen). Meant to run in the ASan build.
+pub fn worker(args: &[String]) -> i32 {
+    let Some(file) = args.first() else {
+        eprintln!("usage: vcheck --worker C10 <cases.json>");
+        return 2;
+    };
+    let txt = match std::fs::read_to_string(file) {
+        Ok(t) => t,
+        Err(e) => {
+            eprintln!("cannot read {file}: {e}");
+            return 2;
+        }
+    };
+    let cases: Vec<Case> = match serde_json::from_str(&txt) {
+        Ok(c) => c,
+        Err(e) => {
+            eprintln!("cannot decode {file}: {e}");
+            return 2;
+        }
+    };
+    let stdout = std::io::stdout();
+    let mut n = 0u64;
+    for (i, c) in cases.iter().enumerate() {
+        {
+            let mut o = stdout.lock();
+            let _ = writeln!(o, "CASE {i}");
+            let _ = o.flush();
+        }
+        let out = run_kind(c, false);
+        if let Some((sig, detail)) = out.fail {
+            let mut o = stdout.lock();
+            let _ = writeln!(o, "MISMATCH [{sig}] {}", detail.replace('\n', " "));
+            let _ = o.flush();
+            return 3;
+        }
+        n += 1;
+    }
+    println!("DONE {n}");
+    0
 }
